@@ -224,6 +224,9 @@ func check(o *vsched.Outcome) (string, string) {
 	return "", ""
 }
 
+// fourOnly: sequences of length 4 are enumerated over operations on the watched file only and the reduced gap set.
+func fourOnly(prefix []step, k string) bool { return len(prefix) == 3 }
+
 func main() {
 	validated := 0
 	if os.Getenv("VSCHED_WORKER") == "" {
@@ -246,7 +249,7 @@ func main() {
 	}
 	maxLen := 2
 	if thorough || os.Getenv("VSCHED_WORKER") != "" {
-		maxLen = 3 // workers must know every scenario name
+		maxLen = 4 // workers must know every scenario name; length 4 uses the reduced gap set {5 ms, 1.5 s}
 	}
 	var rec func(prefix []step)
 	rec = func(prefix []step) {
@@ -260,6 +263,12 @@ func main() {
 			for _, g := range gaps {
 				if len(prefix) == 0 && g != 0 {
 					continue // the gap before the first operation is irrelevant
+				}
+				if maxLen == 4 && len(prefix) > 0 && (g == 0 || g == 500*time.Millisecond) && fourOnly(prefix, k) {
+					continue
+				}
+				if len(prefix) == 3 && k == opTouchO {
+					continue
 				}
 				rec(append(append([]step{}, prefix...), step{k, g}))
 			}
